@@ -168,7 +168,7 @@ def check_case(ctx, model, case, run_oracle=False):
         ctx.count(f"boundary:{fam}:{case['bmode']}")
     if case["params"].get("rescale"):
         ctx.count("loss-rescaled:" + "-".join(k for k, _ in case["params"]["rescale"]))
-    key = _key(case) if (not trivial or case.get("stream") == "boundary") else None
+    key = _key(case) if (not trivial or case.get("stream") in ("boundary", "grid")) else None
     ctx.case(_desc(case), key, sample_every=97)
     # decision margin: discard near-ties of the discontinuous maps, keep exact ties
     if margin is not None and 0 < margin < 1e-6:
@@ -326,9 +326,32 @@ def correspond(ctx, model):
             check_case(ctx, model, case, run_oracle=(i % every == 0))
             if len(ctx.violations) >= 5:
                 return
+    # 2b. exhaustive small scope for the coordinate-wise maps: EVERY point of the dyadic grid {-2.5, -2.375, .., 2.5} for every lam / delta
+    #     of the parameter lists (all threshold ties of the grid are hit exactly, on both sides)
+    for case in grid_cases():
+        i += 1
+        check_case(ctx, model, case, run_oracle=(i % (3 * every) == 0))
+        if len(ctx.violations) >= 5:
+            return
     # 3. which constructions advertise a prox / are rejected (exhaustive over the small configuration space)
     guard_cases(ctx, model)
     reject_cases(ctx, model)
+
+
+def grid_cases():
+    grid = (np.arange(-20, 21) / 8.0).tolist()
+    base = {"shape": [len(grid)], "blocks": None, "cplx": False, "dtype": "float64", "v": grid, "stream": "grid"}
+    for lam in pg.LAMS:
+        for fam in ("l0", "l1", "sql2", "nonneg"):
+            yield dict(base, fam=fam, params={}, lam=lam)
+        for d in pg.DELTAS:
+            yield dict(base, fam="hubersep", params={"delta": d}, lam=lam)
+        for sc in (0.5, 1.0):
+            # phase-retrieval losses: data y sweeps the grid too (|y|), unit and zero weights alternate
+            y = [abs(t) for t in reversed(grid)]
+            w = [float(k % 3 != 0) * (1.0 + (k % 2)) for k in range(len(grid))]
+            for fam in ("sql2abs", "sql2sqabs"):
+                yield dict(base, fam=fam, params={"scale": sc, "A": "none", "rescale": []}, lam=lam, y=y, w=w)
 
 
 GUARD_W = ["none", "diag_nonneg", "diag_negative", "not_diagonal"]
